@@ -303,12 +303,16 @@ def run_script(script: List[Dict[str, Any]], *, timecode: bool = False, log_leve
     mgr_kw = dict(timecode=timecode, log_level=log_level, send_msg_timing=timing, order=order, debug=debug)
     # the manager's own table entry reports os.getpid(): pin it
     import pyrtma.manager as M
-    _orig_getpid = M.os.getpid
-    M.os.getpid = lambda: 4242
+    import os as _os
+    from .rebind import rebind
+    _orig_getpid = _os.getpid
+    _os.getpid = _pid = lambda: 4242            # the `os.getpid()` spelling (any alias of the module)
+    rebind(M, {"os": {"getpid": _pid}})         # the `from os import getpid` spelling
     try:
         res = fakes.run_manager(rounds, **mgr_kw)
     finally:
-        M.os.getpid = _orig_getpid
+        _os.getpid = _orig_getpid
+        rebind(M, {"os": {"getpid": _orig_getpid}})
     obs, streams = observe(res, frames, timecode)
     final = final_tables(res) if not res["crash"] else []
     c = consts()
